@@ -10,7 +10,7 @@ import vlib
 
 LEVEL_TEXT = ('Lean 4 theorems, for all shapes/targets/parities: pad (2-D and cubes) is the restriction of the centred zero-extended '
               'array (origin sample floor(m/2) -> floor(S/2), every copied sample keeps its coordinate), its slices are in bounds, '
-              'pad-then-crop is the identity; util.window: its whole decision tree is regenerated from the source (Gen.windowAct) and proved for all arguments to be: one-element input or neither argument -> input unchanged, shape= -> the centred crop/pad (origin floor(n/2) kept, 2-D and cubes), slice= inside the array -> exactly the index set [r0:r1, c0:c1], shape= and slice= -> that view iff shape equals the extent of the slice, AssertionError otherwise (window_dispatch, window_shape_keeps_origin, window_slice_indices, window_passthrough, window3_shape_keeps_origin); subarray/boundary/boundary_slice/slice_offset address the stated index sets; rebin '
+              'pad-then-crop is the identity; util.window: its whole decision tree is regenerated from the source (Gen.windowAct) and proved for all arguments to be: one-element input or neither argument -> input unchanged, shape= -> the centred crop/pad (origin floor(n/2) kept, 2-D and cubes), slice= inside the array -> exactly the index set [r0:r1, c0:c1], shape= and slice= -> that view iff shape equals the extent of the slice, AssertionError otherwise (window_dispatch, window_shape_keeps_origin, window_slice_indices, window_passthrough, window3_shape_keeps_origin), and on a cube (depth, rows, cols) slice= selects [:, r0:r1, c0:c1] with the depth kept — the leading Ellipsis of the returned view is regenerated as Gen.windowSliceAxesFromEnd (window3_slice_indices); subarray/boundary/boundary_slice/slice_offset address the stated index sets; rebin '
               'preserves the sum — and the reshape target shape and summed axes of both branches of rebin are regenerated (Gen.rebinReshape2/3, Gen.rebinSumAxes2/3) and proved to address, in C order, exactly the factor x factor blocks the model sums (rebin_regenerated, rebin3_regenerated); util.centroid is regenerated statement by statement (Gen.centroid: normalisation by the total, np.mgrid lower bounds, grid/np.dot pairing, order of the returned pair) and proved over any field to return (row numerator / total, column numerator / total) of the quantities the following theorems are about (centroid_regenerated); the centroid of an array that is half-turn symmetric about a sample is that sample (also for any ring of weights: antialiased values), hence the centroid of a drawn circle / rectangle / hexagon with zero shift is the origin sample floor(n/2) UNDER the hypotheses of the theorem: row 0 of the image is zero when the row count is even and column 0 is zero when the column count is even (the mirror image of index 0 on an even axis falls outside the array; satisfiable: centroid_of_drawn_rectangle_instance, a 2x2 rectangle on 6x6 over Q) (centroid_of_drawn_shapes), the centroid of an indicator '
               'set is its mean position; mesh coordinates translate under integer '
               'shifts and negate under the half-turn index map; circle/rectangle/hexagon values lie in [0,1], are binary without '
@@ -33,7 +33,7 @@ RULE = ('cases: pad of 2-D arrays (all source/target sizes 1..9, every grow/shri
         'pads, rebin (2-D, cubes, non-divisible factors), centroid, hex_ring 0..6, hex_segments (rings 1..3, gaps >= 0, drop lists '
         'with duplicates and out-of-range numbers, both orientations; segment centres, array size and overlap checked for every case, the WHOLE segment cube compared pixel by pixel with the model for rings x radius <= 10 and for one larger aperture in eight in the deeper tiers; also the library defaults antialias=True/pad=2/drop=(0,) compared as a flattened aperture), '
         'cross-helper cases (pad of a drawn shape = the shape drawn larger, crop = sub-array, centroid and bounding box of an integer-shifted shape), float and '
-        'negative-weight centroids, rebin refusals (factor 0, complex), util.window (20 cases per quick run over every path of its decision tree: shape / slice / both consistent / both inconsistent (must raise AssertionError) / neither / one element with shape or slice / cube with shape / slices with negative and past-the-end bounds — all compared with the model that executes the regenerated tree), '
+        'negative-weight centroids, rebin refusals (factor 0, complex), util.window (20 cases per quick run over every path of its decision tree: shape / slice / both consistent / both inconsistent (must raise AssertionError) / neither / one element with shape or slice / cube with shape / cube with slice and with consistent shape+slice (6 per quick run; reference: the index set on the LAST two axes) / slices with negative and past-the-end bounds — all compared with the model that executes the regenerated tree), '
         'circle/rectangle/hexagon/spider with dyadic parameters, shifts and rotations, antialiased and binary, incl. shapes much larger '
         'than the array or centred far outside it; boundary data at physical scales 1e-18..1e12; half-turn-symmetric arrays for the '
         'centroid; deeper tiers add arrays up to 3001x3 / 3x4097, int8/int16/uint8/int32/float32 data, a 61-segment aperture; distinct = canonical (kind, shapes, parameters) signature; non-trivial = not the '
@@ -43,11 +43,11 @@ TRUSTED = ['util.centroid: np.mgrid[a:nr, b:nc] gives the grids (a + i, b + j), 
            'NumPy slicing, reshape(...).sum, np.any/np.where, np.clip/np.minimum semantics as modelled by hand in Model/Geometry.lean',
            'libm sqrt/sin/cos agree with NumPy to 1e-9 (drawn shapes are compared with the model run at Float)']
 UNPROVEN = ['hex_segments: equal segment area up to edge sampling (checked on the real code by the oracle only)',
-            'util.window on cubes with slice= has no theorem (not generated either, see assumptions); slices with negative / past-the-end bounds are modelled (sliceBound = Python slice.indices) and compared on generated cases, the theorem window_slice_indices is stated for 0 <= r0 <= r1 <= rows, 0 <= c0 <= c1 <= cols']
+            'util.window: slices with negative / past-the-end bounds are modelled (sliceBound = Python slice.indices) and compared on generated cases, the theorem window_slice_indices is stated for 0 <= r0 <= r1 <= rows, 0 <= c0 <= c1 <= cols']
 ASSUMPTIONS = ['shape parameters, shifts and radii are dyadic rationals of moderate size so that mesh coordinates are exact in float64',
                'non-overlap is judged on non-antialiased masks; seg_gap = 0 is the recorded known finding KF-C20-hex-gap0-shared-edge',
                'border clearance is stated for pad >= 2 (the default); pad < 2 is not claimed',
-               'util.window(cube, slice=...) is not generated: it slices the first two axes (depth, rows) of a cube, not rows and columns — reported, outside the property statement']
+               'util.window(cube, slice=...) addresses rows and columns (img[..., r0:r1, c0:c1], the cube convention (depth, rows, cols) of pad and window(shape=)); generated in every run and judged by the oracle']
 
 # ------------------------------------------------------------------------------------------ generation
 def _ints(rng, n, lo=-4, hi=5): return [int(x) for x in rng.integers(lo, hi, n)]
@@ -210,6 +210,14 @@ def generate(rng, tier):
             c['to'][ax] += [-1, 1, 2][int(rng.integers(0, 3))]
         if mode.startswith('cube'): c['shape'] = [2] + list(m); c['data'] = _ints(rng, 2 * m[0] * m[1], 1, 9)
         out.append(c)
+    # util.window on cubes (depth, rows, cols) with slice=: the slice must address rows and columns (the last two axes), depth kept
+    for q in range({'quick': 6, 'thorough': 150, 'search': 60}[tier]):
+        dm = (int(rng.integers(2, 5)), int(rng.integers(2, 9)), int(rng.integers(2, 9)))
+        r0, c0 = int(rng.integers(0, dm[1])), int(rng.integers(0, dm[2]))
+        sl = [r0, int(rng.integers(r0 + 1, dm[1] + 1)), c0, int(rng.integers(c0 + 1, dm[2] + 1))]
+        mode = 'cube-both' if q % 3 == 2 else 'cube-slice'
+        out.append({'kind': 'window', 'shape': list(dm), 'data': _ints(rng, dm[0] * dm[1] * dm[2], 1, 9), 'mode': mode,
+                    'to': [sl[1] - sl[0], sl[3] - sl[2]], 'slice': sl})
     if tier in ('search', 'thorough'):
         out += _extremes(rng)
     if tier == 'thorough':
@@ -319,7 +327,8 @@ def impl(c):
             kw = {}
             if md == 'one-element-slice': a = a.ravel()[:1].reshape(1, 1)
             if md in ('shape', 'both', 'both-bad', 'cube-shape', 'one-element'): kw['shape'] = tuple(c['to'])
-            if md in ('slice', 'both', 'both-bad', 'cube-slice', 'slice-neg', 'one-element-slice'): kw['slice'] = tuple(c['slice'])
+            if md in ('slice', 'both', 'both-bad', 'cube-slice', 'cube-both', 'slice-neg', 'one-element-slice'): kw['slice'] = tuple(c['slice'])
+            if md == 'cube-both': kw['shape'] = tuple(c['to'])
             if md == 'both': kw['shape'] = (c['slice'][1] - c['slice'][0], c['slice'][3] - c['slice'][2])
             r = lentil.util.window(a, **kw)
             return {'shape': list(np.shape(r)), 'data': _il(r)}
@@ -407,7 +416,10 @@ def requests(c, io):
     if k == 'window':
         md = c['mode']
         if md == 'cube-shape': return [{'op': 'window3', 'shape': c['shape'], 'data': c['data'], 'to': c['to']}]
-        if md == 'cube-slice': return []
+        if md in ('cube-slice', 'cube-both'):
+            rq = {'op': 'window3', 'shape': c['shape'], 'data': c['data'], 'slice': c['slice']}
+            if md == 'cube-both': rq['to'] = c['to']
+            return [rq]
         rq = {'op': 'window', 'shape': c['shape'], 'data': c['data']}
         if md.startswith('one-element'): rq['shape'] = [1, 1]; rq['data'] = c['data'][:1]
         if md in ('shape', 'both', 'both-bad', 'one-element'):
@@ -615,12 +627,15 @@ def oracle(c, io):
         a = _arr(c); md = c['mode']
         if md.startswith('one-element'): want = a.ravel()[:1].reshape(1, 1)
         elif md == 'none': want = a
-        elif md in ('slice', 'both', 'cube-slice', 'slice-neg'):
+        elif md in ('slice', 'both', 'cube-slice', 'cube-both', 'slice-neg'):
             sl = c['slice']; want = a[..., sl[0]:sl[1], sl[2]:sl[3]]
         else:
             S = c['to']; want = np.zeros(a.shape[:-2] + tuple(S))
             for i in range(S[0]):
                 for j in range(S[1]): want[..., i, j] = _centred(a, i - S[0] // 2, j - S[1] // 2)
+        if md in ('cube-slice', 'cube-both') and (io['shape'] != list(want.shape) or io['data'] != _il(want)):
+            return (f"window(cube of shape {tuple(c['shape'])} (depth, rows, cols), slice={tuple(c['slice'])}) returned shape {tuple(io['shape'])}, expected "
+                    f"{tuple(want.shape)} = img[:, {c['slice'][0]}:{c['slice'][1]}, {c['slice'][2]}:{c['slice'][3]}] (rows and columns sliced, depth kept)")
         if io['shape'] != list(want.shape) or io['data'] != _il(want):
             return f"window({md}) is not {'the requested slice' if 'slice' in md or md == 'both' else 'the centred crop/pad (origin at floor(n/2))'}"
         return None
